@@ -1,7 +1,15 @@
 (* C19 driver: from the extracted Coq model (C19_model)
      model <file>            prints the cc / core / tree lines of harness/c19_peel.cpp for the same graphs
      check <file> <output>   runs the verified checkers peel_okb / conncomps_okb on the harness output
-   nat stays the Coq datatype. *)
+     tree <file>             runs the verified checker tree_layout_ok on node boxes after Tree::symmetricLayout:
+                             input  "T <k>" / "N id cx cy w h" ([-]HEX/HEX exact rationals) / "end"
+                             output "<k> ok" or "<k> BAD i,j i,j ..." (the overlapping pairs)
+     plan <file>             runs the verified checker planarise_ok on the output of OrthoPlanariser::planarise:
+                             input  "P <k>" / "O id x y" original node / "F a b" original edge / "N id x y" node of the
+                             planarised graph / "E a b" its edges / "end";
+                             output "<k> ok" or "<k> BAD nodup=b present=b nocross=b chains=b | X i,j ... | C a-b ..."
+                             (X: indices of result edges whose open segments meet; C: original edges without a chain)
+   nat, Z, Q stay the Coq datatypes. *)
 open C19_model
 
 let rec nat_of_int n = if n <= 0 then O else S (nat_of_int (n - 1))
@@ -97,8 +105,83 @@ let mode_check file outfile =
     done with End_of_file -> ());
   finish (); close_in ic
 
+(* ---- exact rationals: [-]HEX/HEX *)
+let hexval c = match c with
+  | '0'..'9' -> Char.code c - 48 | 'a'..'f' -> Char.code c - 87 | 'A'..'F' -> Char.code c - 55
+  | _ -> failwith ("bad hex digit " ^ String.make 1 c)
+let pos_of_hex (s : string) : positive option =
+  let acc = ref None in
+  String.iter (fun c ->
+    let v = hexval c in
+    for b = 3 downto 0 do
+      let bit = (v lsr b) land 1 = 1 in
+      acc := (match !acc with
+              | None -> if bit then Some XH else None
+              | Some p -> Some (if bit then XI p else XO p))
+    done) s;
+  !acc
+let q_of_string (s : string) : q =
+  let neg = String.length s > 0 && s.[0] = '-' in
+  let s = if neg then String.sub s 1 (String.length s - 1) else s in
+  let (a, b) = match String.index_opt s '/' with
+    | Some i -> (String.sub s 0 i, String.sub s (i + 1) (String.length s - i - 1))
+    | None -> (s, "1") in
+  let den = match pos_of_hex b with Some p -> p | None -> failwith "zero denominator" in
+  let num = match pos_of_hex a with None -> Z0 | Some p -> if neg then Zneg p else Zpos p in
+  qred { qnum = num; qden = den }
+let rec pos_of_int n = if n = 1 then XH else if n land 1 = 0 then XO (pos_of_int (n lsr 1)) else XI (pos_of_int (n lsr 1))
+let z_of_int n = if n = 0 then Z0 else if n > 0 then Zpos (pos_of_int n) else Zneg (pos_of_int (-n))
+let rec int_of_pos = function XH -> 1 | XO p -> 2 * int_of_pos p | XI p -> 2 * int_of_pos p + 1
+let int_of_z = function Z0 -> 0 | Zpos p -> int_of_pos p | Zneg p -> - (int_of_pos p)
+
+let mode_tree file =
+  let ic = open_in file in
+  let cur = ref "" and bs = ref [] in
+  (try while true do
+      match split_ws (input_line ic) with
+      | ["T"; k] -> cur := k; bs := []
+      | ["N"; id; cx; cy; w; h] ->
+        bs := box_of_centre (z_of_int (int_of_string id)) (q_of_string cx) (q_of_string cy) (q_of_string w) (q_of_string h) :: !bs
+      | ["end"] ->
+        let l = List.rev !bs in
+        if tree_layout_ok l then Printf.printf "%s ok\n" !cur
+        else Printf.printf "%s BAD %s\n" !cur
+            (String.concat " " (List.map (fun (i, j) -> Printf.sprintf "%d,%d" (int_of_z i) (int_of_z j)) (overlapping_pairs l)))
+      | _ -> ()
+    done with End_of_file -> ());
+  close_in ic
+
+let mode_plan file =
+  let ic = open_in file in
+  let cur = ref "" and orig = ref [] and oe = ref [] and res = ref [] and re = ref [] in
+  let b2 b = if b then "1" else "0" in
+  let n s = nat_of_int (int_of_string s) in
+  (try while true do
+      match split_ws (input_line ic) with
+      | ["P"; k] -> cur := k; orig := []; oe := []; res := []; re := []
+      | ["O"; id; x; y] -> orig := { pn_id = n id; pn_pos = { px = q_of_string x; py = q_of_string y } } :: !orig
+      | ["N"; id; x; y] -> res := { pn_id = n id; pn_pos = { px = q_of_string x; py = q_of_string y } } :: !res
+      | ["F"; a; b] -> oe := (n a, n b) :: !oe
+      | ["E"; a; b] -> re := (n a, n b) :: !re
+      | ["end"] ->
+        let orig = List.rev !orig and oe = List.rev !oe and res = List.rev !res and re = List.rev !re in
+        if planarise_ok orig oe res re then Printf.printf "%s ok\n" !cur
+        else begin
+          Printf.printf "%s BAD nodup=%s present=%s nocross=%s chains=%s |" !cur
+            (b2 (nodupb (List.map (fun x -> x.pn_id) res))) (b2 (List.for_all (present_b res) orig))
+            (b2 (nocross_b res re)) (b2 (chains_b orig res oe re));
+          List.iter (fun (i, j) -> Printf.printf " X %d,%d" (int_of_nat i) (int_of_nat j)) (meeting_pairs res re);
+          List.iter (fun (a, b) -> Printf.printf " C %d-%d" (int_of_nat a) (int_of_nat b)) (broken_chains orig res oe re);
+          print_newline ()
+        end
+      | _ -> ()
+    done with End_of_file -> ());
+  close_in ic
+
 let () =
   match Array.to_list Sys.argv with
+  | [_; "plan"; f] -> mode_plan f
+  | [_; "tree"; f] -> mode_tree f
   | [_; "model"; f] -> mode_model f
   | [_; "check"; f; o] -> mode_check f o
   | _ -> prerr_endline "usage"; exit 2
